@@ -6,8 +6,8 @@
    Model/Once.v (syncutil.Once), tied to the Go code by the correspondence run. *)
 From Coq Require Import Sorting.Sorted Sorting.Permutation.
 From Oras Require Import Base.Prelude Generated.GC16
-  Model.Scopes Model.Challenge Model.AuthClient Model.Once Model.CacheSet
-  Proofs.Scopes Proofs.ScopesIdem Proofs.AuthClient Proofs.AuthHistory Proofs.Once Proofs.CacheSet.
+  Model.Scopes Model.Challenge Model.AuthClient Model.Once Model.CacheSet Model.OnceSlot
+  Proofs.Scopes Proofs.ScopesIdem Proofs.AuthClient Proofs.AuthHistory Proofs.Once Proofs.CacheSet Proofs.OnceSlot.
 
 (* ================= scope sets: the canonical cache key ================= *)
 
@@ -367,3 +367,51 @@ Example C16_failed_send_example :
         SDist 0 (b "https://auth.example/token") (b "svc0") [b "repository:a:pull"] (Some (SUserPass 0));
         SReg 0 (ABearer (SIssued 0 9)) true], RResp false) ].
 Proof. vm_compute. reflexivity. Qed.
+
+(* ================= Once: the run slot is never lost ================= *)
+
+(* The per-caller program is the list of control paths the translator extracts from
+   once.go (Generated.GC16: once_paths_taken, once_paths_closed); by computation every path that holds
+   the slot hands it back or publishes before it leaves Do. *)
+Theorem C16_once_paths_release :
+  forallb releases paths_taken = true /\ forallb untouched paths_closed = true /\
+  negb (Nat.eqb (length paths_taken) 0) = true /\ negb (Nat.eqb (length paths_closed) 0) = true.
+Proof. exact generated_paths_ok. Qed.
+Print Assumptions C16_once_paths_release.
+
+(* For every interleaving of any number of Do calls (callers whose context is
+   already cancelled, or is cancelled while they wait, included): a taken slot is
+   owned by a caller that is inside Do on a path that releases it; at every
+   quiescent point the slot is free or a result is published; and the owner's own
+   steps alone release it (nobody can be made to wait forever by a caller that
+   has left). *)
+Theorem C16_once_slot_never_lost :
+  (forall tr st g, once_run sinit tr = Some st -> s_slot st = STaken g ->
+     exists rest, pc_get (s_pcs st) g = PIn rest /\ releases rest = true) /\
+  (forall tr st, once_run sinit tr = Some st ->
+     (forall g rest, pc_get (s_pcs st) g <> PIn rest) ->
+     s_slot st = SFree \/ s_slot st = SClosed) /\
+  (forall tr st g, once_run sinit tr = Some st -> s_slot st = STaken g ->
+     exists n st', once_run st (repeat (SAct g) n) = Some st' /\
+       (s_slot st' = SFree \/ s_slot st' = SClosed)).
+Proof.
+  exact (conj (slot_owned paths_taken paths_closed generated_taken_release)
+        (conj (quiescent_slot_free paths_taken paths_closed generated_taken_release)
+              (never_wedged paths_taken paths_closed generated_taken_release))).
+Qed.
+Print Assumptions C16_once_slot_never_lost.
+
+(* the statement is about the program, not the machine: with one more return path
+   that keeps the slot (a context check after the receive) the slot is lost *)
+Theorem C16_once_leaky_program_refuted :
+  let taken := [ARet] :: paths_taken in
+  exists tr st, srun taken paths_closed sinit tr = Some st /\
+    (forall g rest, pc_get (s_pcs st) g <> PIn rest) /\ s_slot st = STaken 1.
+Proof. exact leaky_program_wedges. Qed.
+Print Assumptions C16_once_leaky_program_refuted.
+
+Example C16_once_slot_example :
+  once_slot_final [SEnter 1; SEnter 2; SCtxDone 2; STake 1 0; SAct 1; SEnter 3; SAct 1; SAct 1;
+                   STake 3 1; SAct 3; SAct 3; SAct 3; SAct 3; SEnter 4; SReadClosed 4 0; SAct 4] = Some SClosed
+  /\ once_slot_final [SEnter 1; STake 1 0; SEnter 2; STake 2 0] = None.
+Proof. vm_compute. auto. Qed.
